@@ -79,8 +79,6 @@ func ValidateBeaconBlock(ctx context.Context, block *common.BeaconBlockEnvelope,
 		return GossipValidatorResult{REJECT, errors.New("invalid block signature")}
 	}
 
-	blockVal.MarkBlock(block.Slot, block.ProposerIndex)
-
 	// [REJECT] The block is proposed by the expected proposer_index for the block's slot in the context of
 	// the current shuffling (defined by parent_root/slot).
 
@@ -116,6 +114,8 @@ func ValidateBeaconBlock(ctx context.Context, block *common.BeaconBlockEnvelope,
 	if proposer != block.ProposerIndex {
 		return GossipValidatorResult{REJECT, fmt.Errorf("expected proposer %d, but block was proposed by %d", proposer, block.ProposerIndex)}
 	}
+
+	blockVal.MarkBlock(block.Slot, block.ProposerIndex)
 
 	return GossipValidatorResult{ACCEPT, nil}
 }
